@@ -848,7 +848,14 @@ class TokenizerCore:
             if self._scan_comment(word):
                 return
             if prev_space or single_token or not char:
-                self._advance(size - 1)
+                jump = size - 1
+                skipped = sql[self._current : self._current + jump - 1] if jump > 1 else ""
+                if "\n" in skipped or "\r" in skipped:
+                    # a whitespace-folded keyword can span line breaks: _advance(i) only looks at the current char
+                    for _ in range(jump):
+                        self._advance()
+                else:
+                    self._advance(jump)
                 word = word.upper()
                 self._add(self.keywords[word], text=word)
                 return
